@@ -763,6 +763,13 @@ impl EventReader {
         }
     }
 
+    /// Do not consider the event with the given number (nor the ones before it) anymore.
+    ///
+    /// Used for an event which can never be reported, because it is too large for a message.
+    pub(crate) fn skip(&mut self, event_number: u64) {
+        self.max_seen_event_number = self.max_seen_event_number.max(event_number);
+    }
+
     pub fn process_read(
         &mut self,
         event: EventData<'_>,
